@@ -1,5 +1,5 @@
 #!/usr/bin/env python3
-"""confirm_seed.py <id> <outdir> [--features f1,f2]
+"""confirm_seed.py <id> <outdir> [--features f1,f2] [--toolchain nightly] [--miri [--release]] [--rustflags "<flags>"]
 Independently confirm a seeded change: in a fresh scratch worktree of /repo (removed afterwards)
  1. apply patch.diff, run the pinned test suite (cargo test --workspace) -> must pass,
  2. add the demonstration as tests/demo_<id>.rs, run it -> must FAIL with the change,
@@ -40,6 +40,10 @@ try:
         env["CARGO_TARGET_DIR"] = "/tmp/confirm-target-miri"
     if feats:
         cmd += ["--features", feats]
+    if "--rustflags" in sys.argv:
+        # the demonstration needs target features (the suite above ran with the default ones)
+        env["RUSTFLAGS"] = sys.argv[sys.argv.index("--rustflags") + 1]
+        env["CARGO_TARGET_DIR"] = "/tmp/confirm-target-flags"
     rc, o = run(cmd)
     res["demo_with_change_exit"] = rc
     res["demo_with_change_tail"] = [l for l in o.splitlines() if l.startswith("test ") or "panicked" in l][-6:]
